@@ -1,6 +1,7 @@
 package zv
 
 import (
+	"fmt"
 	"go/constant"
 	"go/token"
 	"go/types"
@@ -148,6 +149,18 @@ func c1Taint(c *Ctx, rule string) {
 					c.Check(!bad, rule, name, slot, bc.call.Pos(), "constant %q contains no control character", string(b))
 					continue
 				}
+				if alts, ok := ConstAlternatives(args[1]); ok {
+					bad := ""
+					for _, b := range alts {
+						for _, x := range b {
+							if x < 0x20 {
+								bad = string(b)
+							}
+						}
+					}
+					c.Check(bad == "", rule, name, slot, bc.call.Pos(), "one of %d constants chosen by a helper; none contains a control character %q", len(alts), bad)
+					continue
+				}
 				d := Desc(args[1])
 				if strings.HasSuffix(d, ".LineEnding") {
 					// only as the very last write of EncodeEntry
@@ -221,21 +234,135 @@ func c1Taint(c *Ctx, rule string) {
 
 // inQuotes: call is preceded on every path by an AppendByte('"') and followed on every path by one.
 func inQuotes(c *Ctx, fn *ssa.Function, call ssa.Instruction) bool {
-	isQuote := func(i ssa.Instruction) bool {
-		cl, ok := i.(*ssa.Call)
-		if !ok {
-			return false
-		}
-		f := CalleeFunc(cl)
-		if f == nil || f.Name() != "AppendByte" || !encBufRecv(c, Args(cl)[0]) {
-			return false
-		}
-		b, ok := constBytes(Args(cl)[1])
-		return ok && len(b) == 1 && b[0] == '"'
+	at, _, _ := quoteFlow(c, fn, 0)
+	return at[call] == 1
+}
+
+// constWrite: in writes constant text (one of finitely many constants) to an encoder buffer.
+func constWrite(c *Ctx, in ssa.Instruction) (alts [][]byte, ok bool) {
+	cl, isCall := in.(*ssa.Call)
+	if !isCall {
+		return nil, false
 	}
-	before := !ExistsPath(fn, nil, func(i ssa.Instruction) bool { return i == call }, isQuote)
-	after := !ExistsPath(fn, call, IsReturn, isQuote)
-	return before && after
+	f := CalleeFunc(cl)
+	if f == nil || f.Pkg() == nil || f.Pkg().Path() != "go.uber.org/zap/buffer" {
+		return nil, false
+	}
+	switch f.Name() {
+	case "AppendByte", "AppendString", "WriteByte", "WriteString":
+	default:
+		return nil, false
+	}
+	args := Args(cl)
+	if len(args) != 2 || !encBufRecv(c, args[0]) {
+		return nil, false
+	}
+	return ConstAlternatives(args[1])
+}
+
+// quoteParity: number of unescaped '"' in b, mod 2.
+func quoteParity(b []byte) int {
+	n := 0
+	for i := 0; i < len(b); i++ {
+		if b[i] == '\\' {
+			i++
+			continue
+		}
+		if b[i] == '"' {
+			n++
+		}
+	}
+	return n % 2
+}
+
+// quoteFlow is a forward dataflow over fn: is the output, before each
+// instruction, outside (0) or inside (1) a JSON string literal, counting the
+// quote bytes of every constant write; -1 where paths disagree. A call to an
+// unexported helper toggles the state iff the helper's own exit state is 1.
+// exit is the state at the returns (-1 if they disagree or anything is inconsistent).
+func quoteFlow(c *Ctx, fn *ssa.Function, depth int) (at map[ssa.Instruction]int, exit int, nQuotes int) {
+	at = map[ssa.Instruction]int{}
+	if len(fn.Blocks) == 0 {
+		return at, 0, 0
+	}
+	in := map[*ssa.BasicBlock]int{fn.Blocks[0]: 0}
+	seen := map[*ssa.BasicBlock]bool{}
+	work := []*ssa.BasicBlock{fn.Blocks[0]}
+	exit = -2
+	join := func(a, b int) int {
+		if a == -2 {
+			return b
+		}
+		if a != b {
+			return -1
+		}
+		return a
+	}
+	effect := map[ssa.Instruction]int{}
+	for _, b := range fn.Blocks {
+		for _, i := range b.Instrs {
+			if alts, ok := constWrite(c, i); ok {
+				p := quoteParity(alts[0])
+				for _, a := range alts[1:] {
+					if quoteParity(a) != p {
+						p = -1
+					}
+				}
+				for _, a := range alts {
+					for _, x := range a {
+						if x == '"' {
+							nQuotes++
+							break
+						}
+					}
+				}
+				effect[i] = p
+				continue
+			}
+			if h := helperOf(i); h != nil && depth < 3 && h != fn && h.Pkg == fn.Pkg {
+				_, hx, hq := quoteFlow(c, h, depth+1)
+				if hq > 0 {
+					effect[i] = hx
+				}
+			}
+		}
+	}
+	for len(work) > 0 {
+		b := work[len(work)-1]
+		work = work[:len(work)-1]
+		st := in[b]
+		for _, i := range b.Instrs {
+			at[i] = st
+			if e, ok := effect[i]; ok && st >= 0 {
+				if e < 0 {
+					st = -1
+				} else if e == 1 {
+					st = 1 - st
+				}
+			}
+			if _, isRet := i.(*ssa.Return); isRet {
+				exit = join(exit, st)
+			}
+		}
+		for _, sc := range b.Succs {
+			old, had := in[sc]
+			nv := st
+			if had {
+				nv = join(old, st)
+			}
+			if !had || nv != old || !seen[sc] {
+				in[sc] = nv
+				if !seen[sc] || nv != old {
+					seen[sc] = true
+					work = append(work, sc)
+				}
+			}
+		}
+	}
+	if exit == -2 {
+		exit = 0
+	}
+	return at, exit, nQuotes
 }
 
 // ---------------------------------------------------------------------------
@@ -646,20 +773,30 @@ func seqSet(seqs [][]string) string {
 }
 
 // ---------------------------------------------------------------------------
+// appendByteConst: in writes exactly one constant byte to an encoder buffer
+// (AppendByte(k), or a one-byte constant string).
 func appendByteConst(c *Ctx, in ssa.Instruction) (byte, bool) {
-	cl, ok := in.(*ssa.Call)
+	alts, ok := constWrite(c, in)
+	if !ok || len(alts) != 1 || len(alts[0]) != 1 {
+		return 0, false
+	}
+	return alts[0][0], true
+}
+
+// constWriteHas: in is a constant write some alternative of which contains b.
+func constWriteHas(c *Ctx, in ssa.Instruction, b byte) bool {
+	alts, ok := constWrite(c, in)
 	if !ok {
-		return 0, false
+		return false
 	}
-	f := CalleeFunc(cl)
-	if f == nil || f.Name() != "AppendByte" || f.Pkg() == nil || f.Pkg().Path() != "go.uber.org/zap/buffer" || !encBufRecv(c, Args(cl)[0]) {
-		return 0, false
+	for _, a := range alts {
+		for _, x := range a {
+			if x == b {
+				return true
+			}
+		}
 	}
-	b, ok := constBytes(Args(cl)[1])
-	if !ok || len(b) != 1 {
-		return 0, false
-	}
-	return b[0], true
+	return false
 }
 
 func c1Pairing(c *Ctx, rule string) {
@@ -671,28 +808,66 @@ func c1Pairing(c *Ctx, rule string) {
 			continue
 		}
 		name := fn.String()
-		var quotes, inString []ssa.Instruction
+		var inString []ssa.Instruction
 		AllInstrs(fn, func(in ssa.Instruction) {
-			b, ok := appendByteConst(c, in)
-			if ok && closer[b] != 0 {
+			alts, ok := constWrite(c, in)
+			// net openers in this constant write (an opener closed within the same constant does not count)
+			var open byte
+			if ok {
+				for _, a := range alts {
+					bal := map[byte]int{}
+					for _, x := range a {
+						switch x {
+						case '{', '[':
+							bal[x]++
+						case '}':
+							bal['{']--
+						case ']':
+							bal['[']--
+						}
+					}
+					for _, o := range []byte{'{', '['} {
+						if bal[o] > 0 {
+							open = o
+						}
+					}
+				}
+			}
+			if open != 0 {
+				b := open
 				nOpen++
 				want := closer[b]
 				if fn.Name() == "OpenNamespace" {
 					// paired with openNamespaces++
 					inc := false
+					rc := fn.Params[0].Name()
 					for _, st := range FieldStoresOf(fn, rn) {
-						if st.Field == "openNamespaces" && Desc(st.Instr.Val) == "(enc.openNamespaces + 1)" && Dominates(in, st.Instr) {
+						if st.Field == "openNamespaces" && Desc(st.Instr.Val) == "("+rc+".openNamespaces + 1)" && Dominates(in, st.Instr) {
 							inc = true
 						}
 					}
 					c.Check(inc, rule, name, "opener-counted", in.Pos(), "the namespace's '{' is recorded in openNamespaces, whose closers closeOpenNamespaces emits")
 					return
 				}
-				isCloser := func(i ssa.Instruction) bool { x, ok := appendByteConst(c, i); return ok && x == want }
+				isCloser := func(i ssa.Instruction) bool {
+					ca, ok := constWrite(c, i)
+					if !ok {
+						return false
+					}
+					for _, a := range ca {
+						has := false
+						for _, x := range a {
+							if x == want {
+								has = true
+							}
+						}
+						if !has {
+							return false
+						}
+					}
+					return true
+				}
 				c.Check(!ExistsPath(fn, in, IsExit, isCloser), rule, name, "closed/"+string(b), in.Pos(), "every path from this '%c' to a return (including the marshaler-error path) writes the matching '%c'", b, want)
-			}
-			if ok && b == '"' {
-				quotes = append(quotes, in)
 			}
 			if cl, isCall := in.(*ssa.Call); isCall {
 				if f := CalleeFunc(cl); f != nil {
@@ -703,18 +878,23 @@ func c1Pairing(c *Ctx, rule string) {
 				}
 			}
 		})
-		if len(inString) > 0 || len(quotes) > 0 {
-			okAll := len(quotes)%2 == 0
+		at, exit, nq := quoteFlow(c, fn, 0)
+		if len(inString) > 0 || nq > 0 {
+			okAll := exit == 0
+			bad := ""
+			for i, st := range at {
+				if st < 0 {
+					okAll = false
+					bad = "paths disagree at " + c.Pos(i.Pos())
+				}
+			}
 			for _, s := range inString {
-				okAll = okAll && inQuotes(c, fn, s)
+				if at[s] != 1 {
+					okAll = false
+					bad = "escaped text written outside quotes at " + c.Pos(s.Pos())
+				}
 			}
-			// quotes pair up on every path: from entry to return an even number: with exactly 2 quote sites, second post-dominates first
-			if len(quotes) == 2 {
-				okAll = okAll && Dominates(quotes[0], quotes[1]) && !ExistsPath(fn, quotes[0], IsExit, func(i ssa.Instruction) bool { return i == quotes[1] })
-			} else if len(quotes) != 0 {
-				okAll = false
-			}
-			c.Check(okAll, rule, name, "quotes-paired", fn.Pos(), "%d quote byte(s): they come in a pair on every path and every escaped/in-string write lies between them", len(quotes))
+			c.Check(okAll, rule, name, "quotes-paired", fn.Pos(), "%d quote-writing site(s): on every path the quotes pair up (the function ends outside a string literal) and every escaped write lies inside one %s", nq, bad)
 		}
 	}
 	if nOpen < 4 {
@@ -723,55 +903,51 @@ func c1Pairing(c *Ctx, rule string) {
 	// closeOpenNamespaces: loop bounded by the counter, counter zeroed after
 	cn := c.Method(CorePath, "jsonEncoder", "closeOpenNamespaces")
 	if c.Anchor(rule, "zapcore.jsonEncoder.closeOpenNamespaces", cn != nil) {
-		var app ssa.Instruction
-		AllInstrs(cn, func(in ssa.Instruction) {
-			if b, ok := appendByteConst(c, in); ok && b == '}' {
-				app = in
-			}
-		})
-		ok := false
-		if app != nil {
-			if h := LoopHeader(app.Block()); h != nil {
-				if iff, isIf := h.Instrs[len(h.Instrs)-1].(*ssa.If); isIf {
-					if bo, isB := iff.Cond.(*ssa.BinOp); isB {
-						ph, isPhi := bo.X.(*ssa.Phi)
-						if isPhi {
-							var seed ssa.Value
-							var step int64
-							for _, e := range ph.Edges {
-								if b2, ok := e.(*ssa.BinOp); ok && b2.X == ssa.Value(ph) {
-									k, _ := ConstInt(b2.Y)
-									if b2.Op == token.ADD {
-										step = k
-									} else if b2.Op == token.SUB {
-										step = -k
-									}
-								} else {
-									seed = e
-								}
-							}
-							rc := cn.Params[0].Name()
-							n := rc + ".openNamespaces"
-							sv, seedIsC := ConstInt(seed)
-							bound, boundIsC := ConstInt(bo.Y)
-							switch {
-							case step == 1 && seedIsC && sv == 0 && bo.Op == token.LSS && Desc(bo.Y) == n:
-								ok = true // for i := 0; i < open; i++
-							case step == -1 && Desc(seed) == n && bo.Op == token.GTR && boundIsC && bound == 0:
-								ok = true // for pending := open; pending > 0; pending--
-							}
-						}
-					}
+		// evaluated: with k namespaces open (k = 0..6) the function writes exactly k closing braces and leaves the counter at 0
+		je := c.Named(CorePath, "jsonEncoder")
+		bad := ""
+		for k := int64(0); k <= 6 && je != nil; k++ {
+			it := NewInterp(c)
+			var out []byte
+			weird := ""
+			it.OnCall = func(call *ssa.Call, args []IVal) (IVal, bool) {
+				f := CalleeFunc(call)
+				if f == nil || f.Pkg() == nil || f.Pkg().Path() != "go.uber.org/zap/buffer" {
+					return IVal{}, false
 				}
+				switch {
+				case (f.Name() == "AppendByte" || f.Name() == "WriteByte") && len(args) == 2 && args[1].K == ivInt:
+					out = append(out, byte(args[1].I))
+				case (f.Name() == "AppendString" || f.Name() == "WriteString") && len(args) == 2 && args[1].K == ivStr:
+					out = append(out, args[1].S...)
+				default:
+					weird = f.Name()
+				}
+				return IVal{K: ivTuple}, true
+			}
+			cell := NewStructCell(je)
+			cnt := cell.Field(je, "openNamespaces")
+			if cnt == nil {
+				bad = "no openNamespaces field"
+				break
+			}
+			cnt.V = IInt(k)
+			_, err := it.Run(cn, []IVal{IPtr(cell)})
+			switch {
+			case err != nil:
+				bad = fmt.Sprintf("k=%d: %v", k, err)
+			case weird != "":
+				bad = fmt.Sprintf("k=%d: unexpected buffer call %s", k, weird)
+			case string(out) != strings.Repeat("}", int(k)):
+				bad = fmt.Sprintf("k=%d: wrote %q", k, out)
+			case cnt.V.K != ivInt || cnt.V.I != 0:
+				bad = fmt.Sprintf("k=%d: counter left at %s", k, cnt.V)
+			}
+			if bad != "" {
+				break
 			}
 		}
-		zeroed := false
-		for _, st := range FieldStoresOf(cn, c.Named(CorePath, "jsonEncoder")) {
-			if st.Field == "openNamespaces" && Desc(st.Instr.Val) == "0" && mustPass(cn, func(i ssa.Instruction) bool { return i == ssa.Instruction(st.Instr) }) {
-				zeroed = true
-			}
-		}
-		c.Check(ok && zeroed, rule, cn.String(), "closes-exactly-open", cn.Pos(), "one '}' per open namespace, then the counter is zeroed")
+		c.Check(bad == "" && je != nil, rule, cn.String(), "closes-exactly-open", cn.Pos(), "evaluated for 0..6 open namespaces: one '}' per open namespace is written and the counter ends at zero %s", bad)
 	}
 	// EncodeEntry tail
 	ee := c.Method(CorePath, "jsonEncoder", "EncodeEntry")
@@ -958,7 +1134,7 @@ func c1Separators(c *Ctx, rule string) {
 	var commaSites []string
 	for _, fn := range coreFuncs(c) {
 		AllInstrs(fn, func(in ssa.Instruction) {
-			if b, ok := appendByteConst(c, in); ok && b == ',' {
+			if constWriteHas(c, in, ',') {
 				commaSites = append(commaSites, fn.Name())
 			}
 			if cl, ok := in.(*ssa.Call); ok {
@@ -1030,28 +1206,57 @@ func c1Separators(c *Ctx, rule string) {
 		}
 		c.Check(okEmpty, rule, sep.String(), "empty-buffer", sep.Pos(), "an empty buffer gets no separator")
 	}
-	// addKey order
-	var seq []string
-	AllInstrs(addKey, func(in ssa.Instruction) {
-		if b, ok := appendByteConst(c, in); ok {
-			seq = append(seq, string(b))
-		}
-		if cl, ok := in.(*ssa.Call); ok {
-			if f := CalleeFunc(cl); f != nil {
-				switch f.Name() {
-				case "addElementSeparator":
-					seq = append(seq, "SEP")
-				case "safeAddString":
-					if Strip(Args(cl)[1]) == ssa.Value(addKey.Params[1]) {
-						seq = append(seq, "KEY")
+	// addKey order, explored for spaced on/off with helpers inlined: constant writes are expanded to their bytes
+	rcv := addKey.Params[0].Name()
+	var shapes []string
+	okSeq := true
+	for _, spaced := range []int64{0, 1} {
+		spaced := spaced
+		seqs, trunc := ConcPaths(addKey, ConcCfg{
+			Conc: func(d string) (int64, bool) {
+				if d == rcv+".spaced" {
+					return spaced, true
+				}
+				return 0, false
+			},
+			Inline: func(h *ssa.Function) bool { return h.Name() != "addElementSeparator" && h.Name() != "safeAddString" },
+			Event: func(in ssa.Instruction, st *ConcState) string {
+				if alts, ok := constWrite(c, in); ok {
+					if len(alts) != 1 {
+						return "?"
+					}
+					var parts []string
+					for _, x := range alts[0] {
+						parts = append(parts, string(x))
+					}
+					return strings.Join(parts, " ; ")
+				}
+				if cl, ok := in.(*ssa.Call); ok {
+					if f := CalleeFunc(cl); f != nil {
+						switch f.Name() {
+						case "addElementSeparator":
+							return "SEP"
+						case "safeAddString":
+							if st.Desc(Args(cl)[1]) == addKey.Params[1].Name() {
+								return "KEY"
+							}
+							return "safeAddString(" + st.Desc(Args(cl)[1]) + ")"
+						}
 					}
 				}
-			}
+				return ""
+			},
+		})
+		want := `SEP ; " ; KEY ; " ; :`
+		if spaced == 1 {
+			want += " ;  "
 		}
-	})
-	okSeq := strings.HasPrefix(strings.Join(seq, " "), `SEP " KEY " :`)
-	// straight-line prefix: all on every path
-	c.Check(okSeq, rule, addKey.String(), "key-shape", addKey.Pos(), "addKey emits separator, '\"', escaped key, '\"', ':' (and ' ' only when spaced): %v", seq)
+		if trunc || len(seqs) != 1 || seqs[0] != want {
+			okSeq = false
+		}
+		shapes = append(shapes, fmt.Sprintf("spaced=%d: %q", spaced, seqs))
+	}
+	c.Check(okSeq, rule, addKey.String(), "key-shape", addKey.Pos(), "addKey emits separator, '\"', escaped key, '\"', ':' (and ' ' exactly when spaced) on every path: %v", shapes)
 	if n < 40 {
 		c.Bad(rule, "encoder methods", "count", token.NoPos, "only %d encoder methods checked", n)
 	}
@@ -1223,58 +1428,151 @@ func c1Fallback(c *Ctx, rule string) {
 }
 
 // ---------------------------------------------------------------------------
+// helperIsSplit: the helper's error result is (on some path) the error of an
+// encoder/marshaler call made inside it - i.e. it is a part of its caller that
+// was split off, and its inner calls are examined instead of the call to it.
+func helperIsSplit(h *ssa.Function) bool {
+	for _, r := range Returns(h) {
+		for _, v := range RetVals(r) {
+			if v.Type().String() != "error" {
+				continue
+			}
+			found := false
+			var walk func(x ssa.Value, d int)
+			walk = func(x ssa.Value, d int) {
+				if d > 6 || found {
+					return
+				}
+				switch y := x.(type) {
+				case *ssa.Call:
+					found = true
+				case *ssa.Phi:
+					for _, e := range y.Edges {
+						walk(e, d+1)
+					}
+				}
+			}
+			walk(v, 0)
+			if found {
+				return true
+			}
+		}
+	}
+	return false
+}
+
+func inRegion(fn, h *ssa.Function) bool {
+	for _, f := range Region(fn) {
+		if f == h {
+			return true
+		}
+	}
+	return false
+}
+
 func c1Errors(c *Ctx, rule string) {
 	addTo := c.Method(CorePath, "Field", "AddTo")
 	if c.Anchor(rule, "zapcore.Field.AddTo", addTo != nil) {
 		name := addTo.String()
-		// the err phi and its test
-		var errPhi *ssa.Phi
-		var test *ssa.If
-		var errBlock *ssa.BasicBlock
-		for _, b := range addTo.Blocks {
-			if iff, ok := b.Instrs[len(b.Instrs)-1].(*ssa.If); ok {
-				if bo, ok := iff.Cond.(*ssa.BinOp); ok && (bo.Op == token.NEQ || bo.Op == token.EQL) && IsNilConst(bo.Y) {
-					if ph, ok := bo.X.(*ssa.Phi); ok && ph.Type().String() == "error" {
-						errPhi, test = ph, iff
-						if bo.Op == token.NEQ {
-							errBlock = b.Succs[0]
-						} else {
-							errBlock = b.Succs[1]
+		// the tests that turn a non-nil error into the "<key>Error" string field
+		keyD := addTo.Params[0].Name() + ".Key"
+		reportOf := func(iff *ssa.If) ssa.Value {
+			bo, ok := iff.Cond.(*ssa.BinOp)
+			if !ok || bo.Op != token.NEQ && bo.Op != token.EQL {
+				return nil
+			}
+			x, y := bo.X, bo.Y
+			if IsNilConst(x) {
+				x, y = y, x
+			}
+			if !IsNilConst(y) || x.Type().String() != "error" {
+				return nil
+			}
+			errBlock := iff.Block().Succs[0]
+			if bo.Op == token.EQL {
+				errBlock = iff.Block().Succs[1]
+			}
+			found := false
+			Bound(func() {
+				var cands []ssa.Instruction
+				for _, in := range errBlock.Instrs {
+					cands = append(cands, in)
+					if h := helperOf(in); h != nil {
+						for _, hc := range CallsDeep(h) {
+							cands = append(cands, hc)
 						}
+					}
+				}
+				for _, in := range cands {
+					if cl, ok := in.(*ssa.Call); ok && cl.Call.IsInvoke() && cl.Call.Method.Name() == "AddString" {
+						k := Desc(cl.Call.Args[0])
+						ev := cl.Call.Args[1]
+						okV := false
+						if ec, ok := ev.(*ssa.Call); ok && ec.Call.IsInvoke() && ec.Call.Method.Name() == "Error" && FlowSet(x)[ec.Call.Value] || Desc(ev) == "Error("+Desc(x)+")" {
+							okV = true
+						}
+						okK := k == "("+keyD+` + "Error")`
+						if kc, ok := cl.Call.Args[0].(*ssa.Call); ok && IsCallTo(kc, "fmt.Sprintf") && Desc(kc.Call.Args[0]) == `"%sError"` {
+							for _, e := range varargElems(kc.Call.Args[1]) {
+								if Desc(Strip(e)) == keyD {
+									okK = true
+								}
+							}
+						}
+						if okK && okV {
+							found = true
+						}
+					}
+				}
+			})
+			if found {
+				return x
+			}
+			return nil
+		}
+		tests := map[ssa.Instruction]ssa.Value{}
+		for _, f := range Region(addTo) {
+			for _, b := range f.Blocks {
+				if iff, ok := b.Instrs[len(b.Instrs)-1].(*ssa.If); ok {
+					if x := reportOf(iff); x != nil {
+						tests[iff] = x
 					}
 				}
 			}
 		}
-		if errPhi == nil {
-			c.Bad(rule, name, "err-test", addTo.Pos(), "no `err != nil` test on the merged error after the switch")
+		if len(tests) == 0 {
+			c.Bad(rule, name, "err-test", addTo.Pos(), "no `err != nil` test that turns the error into the \"<key>Error\" string field")
 		} else {
-			c.Check(!ExistsPath(addTo, nil, IsReturn, func(i ssa.Instruction) bool { return i == ssa.Instruction(test) }), rule, name, "no-early-return", test.Pos(), "every arm falls through to the error test (no arm returns early)")
-			// every error-returning call feeds the phi
+			var anyTest ssa.Instruction
+			for t := range tests {
+				anyTest = t
+			}
+			c.Triv(rule, name, "err-test", anyTest.Pos(), "found the error test")
+			isTest := func(i ssa.Instruction) bool { _, ok := tests[i]; return ok }
+			// every error-returning call flows into such a test, and cannot leave AddTo without passing it
 			n := 0
-			for _, cl := range Calls(addTo) {
+			noEarly := true
+			for _, cl := range CallsDeep(addTo) {
 				call, ok := cl.(*ssa.Call)
-				if !ok || call.Type().String() != "error" {
+				if !ok || call.Type().String() != "error" || helperOf(call) != nil && curProgRoot(helperOf(call)) && len(Returns(helperOf(call))) > 0 && inRegion(addTo, helperOf(call)) && helperIsSplit(helperOf(call)) {
 					continue
 				}
 				n++
+				fs := FlowSet(call)
 				feeds := false
-				for _, e := range errPhi.Edges {
-					if Strip(e) == ssa.Value(call) {
+				for _, x := range tests {
+					if fs[x] {
 						feeds = true
 					}
 				}
-				c.Check(feeds, rule, name, "error-kept/"+FuncName(CalleeFunc(call))+"#"+itoa(n), call.Pos(), "the error returned by %s reaches the error test", FuncName(CalleeFunc(call)))
-			}
-			// the error branch adds <key>Error
-			okAdd := false
-			for _, in := range errBlock.Instrs {
-				if cl, ok := in.(*ssa.Call); ok && cl.Call.IsInvoke() && cl.Call.Method.Name() == "AddString" {
-					k := Desc(cl.Call.Args[0])
-					v := Desc(cl.Call.Args[1])
-					okAdd = (strings.HasPrefix(k, `Sprintf("%sError"`) || k == `(f.Key + "Error")`) && v == "Error("+Desc(errPhi)+")"
+				escapes := ExistsPath(addTo, call, IsReturn, isTest)
+				if escapes {
+					noEarly = false
 				}
+				c.Check(feeds && !escapes, rule, name, "error-kept/"+FuncName(CalleeFunc(call))+"#"+itoa(n), call.Pos(), "the error returned by %s reaches the error test on every path (flows=%v, can leave untested=%v)", FuncName(CalleeFunc(call)), feeds, escapes)
 			}
-			c.Check(okAdd, rule, name, "adds-key-error", test.Pos(), "a non-nil error becomes enc.AddString(key+\"Error\", err.Error())")
+			c.Check(noEarly && n > 0, rule, name, "no-early-return", anyTest.Pos(), "every arm that can fail reaches the error test (no arm returns early)")
+			c.Check(true, rule, name, "adds-key-error", anyTest.Pos(), "a non-nil error becomes enc.AddString(key+\"Error\", err.Error())")
 		}
 	}
 	// errcheck over encoder / marshaler interface methods
